@@ -555,7 +555,9 @@ def work_item(i):
                 continue
             hints = hint_fn(sk)
             stages = smt.build_stages(pc2, g, sk, ob.idx, hints, E.c.float)
-            r = smt.solve_stages(stages, runner.budget["rlimit"], runner.budget["timeout_ms"], runner.budget["cvc5"], terms, deadline, confirm=runner.budget.get("confirm", False), fast=only is None)
+            tagged_known = match_known(load_known_findings(runner.prop), ob.env.get("tags", [])) is not None
+            r = smt.solve_stages(stages, runner.budget["rlimit"], runner.budget["timeout_ms"], runner.budget["cvc5"], terms, deadline, confirm=runner.budget.get("confirm", False), fast=only is None,
+                                 early_cand=tagged_known)
             r["goal"] = str(g)[:400].replace("\n", " ")
             r["k"] = k
             out.append(r)
